@@ -28,10 +28,12 @@ import coremodel
 import coreprop
 import impl
 import lib
+import leaftie
 from lib import coq_bool, coq_list, coq_nat
 from universe import LEAVES, cname, src_ty
 
 COQ_TARGETS = ["theories/Props/C13.vo", "theories/Model/CoreTables.vo"]
+COQ_TARGETS = COQ_TARGETS + [t for t in leaftie.COQ_TARGETS if t not in COQ_TARGETS]
 THEOREMS = ["C13_passthrough", "C13_valid_fuel_mono", "C13_results_valid", "C13_idempotent",
             "C13_defaults_guard_sound", "C13_wf_guard_sound", "C13_refuted_idem_nonconforming_default",
             "C13_refuted_idem_general_union"]
@@ -95,6 +97,41 @@ class Mirror13(coremodel.Mirror):
             self.leaf_log.append((name, x, y))
         return y
 
+    def _unm(self, d, x):
+        """a TypedDict of mixed totality (round 3): the required keys are env['required'][n], not all-or-none"""
+        if d[0] in ("name", "ref", "aliasstr"):
+            n = d[1] if d[0] != "aliasstr" else d[2]
+            env = self.reg.env
+            if n in env.get("required", {}) and env["defs"][n][0] == "class":
+                fields = self.struct_fields(n)
+                kw = {}
+                for a, b in self.iteritems(self.load(x)):
+                    self._hash(a)
+                    if type(a) is str and a in fields:
+                        kw[a] = self.unm(fields[a], b)
+                if any(f not in kw for f in env["required"][n]):
+                    raise coremodel.ModelRaise("EType")
+                return self._construct(lambda: getattr(self.reg.mod, cname(n))(**kw))
+        return super()._unm(d, x)
+
+
+class Group13(coremodel.Group):
+    """a Group whose classes are defined by the derivations of env['derive'] (c13_gen.materialise / Registry13)"""
+
+    def __init__(self, env, roots, suppressed):
+        import copy
+        env, roots = copy.deepcopy((env, roots))
+        self.env, self.roots = env, roots
+        self.mod, self.pytys, self.src = G.materialise(env, roots)
+        self.reg = G.Registry13(env, self.mod)
+        self.mirror = Mirror13(self.reg, suppressed["u"])
+        self.sup = suppressed
+        self.cases = []
+        self.fuel = FUEL
+        self.orders = {"u": {}, "m": {}}
+        self.order_problems = []
+        self.reg.build_reverse(roots)
+
 
 class Rec:
     __slots__ = ("group", "ri", "tdesc", "pytype", "value", "inputs", "results")
@@ -106,8 +143,9 @@ class Rec:
         self.results = []
 
 
-def make_group(rng, gi, sup, depth):
-    env = G.gen_env(rng, ncls=rng.randint(1, 3), cyclic=(gi % 3 == 2), depth=depth, bad_defaults=(gi % 5 == 4))
+def make_group(rng, gi, sup, depth, derive=False):
+    env = G.gen_env(rng, ncls=rng.randint(1, 3), cyclic=(gi % 3 == 2), depth=depth, bad_defaults=(gi % 5 == 4),
+                    derive=G.kind_cycle(gi) if derive else None)
     classes = [n for n, d in env["defs"].items() if d[0] in ("class", "alias")]
     roots = [("name", n) for n in classes]
     for _ in range(3):
@@ -128,19 +166,29 @@ def make_group(rng, gi, sup, depth):
          ("seq", "KList", "list[{}]", ("leaf", "str"))),
         ("tuple", "tuple[{}]", [("leaf", "str"), ("leaf", "str")]),
     ]))
-    g = coremodel.Group(env, roots, sup)
-    g.mirror = Mirror13(g.reg, sup["u"])
+    if derive:
+        # the derived classes also under the containers whose members the pairs detection peeks at
+        cls = [n for n, d in env["defs"].items() if d[0] == "class"]
+        if cls:
+            c = ("name", rng.choice(cls))
+            roots.append(rng.choice([("seq", "KList", "list[{}]", c), ("map", "KDict", "dict[{}, {}]", ("leaf", "str"), c),
+                                     ("tuple", "tuple[{}]", [c, c]), ("union", "Optional", [c, ("none",)])]))
+        g = Group13(env, roots, sup)
+    else:
+        g = coremodel.Group(env, roots, sup)
+        g.mirror = Mirror13(g.reg, sup["u"])
     g.bad_defaults = G.defaults_conform(env, g.mod)
     return g
 
 
-def generate(run, n_groups, seed_offset, values_per_root=3, depth=2, model=True):
-    """-> (groups, records).  With model=False nothing is recorded for Coq (oracle-only volume)."""
+def generate(run, n_groups, seed_offset, values_per_root=3, depth=2, model=True, derive=False):
+    """-> (groups, records).  With model=False nothing is recorded for Coq (oracle-only volume).
+    derive: every class of every environment is defined by a derivation (c13_gen.DERIVATIONS, round robin)."""
     rng = random.Random(run.seed * 1000 + seed_offset)
     sup = coreprop.suppressed()
     groups, records = [], []
     for gi in range(n_groups):
-        g = make_group(rng, gi, sup, depth)
+        g = make_group(rng, gi, sup, depth, derive)
         for ri, r in enumerate(g.roots):
             for _ in range(values_per_root):
                 try:
@@ -169,6 +217,53 @@ def generate(run, n_groups, seed_offset, values_per_root=3, depth=2, model=True)
                 records.append(rec)
         groups.append(g)
     return groups, records
+
+
+def generate_catalogue(run, model=True):
+    """the exhaustive part of the derivation stratum: every derivation kind x every first-field family of
+    c13_gen.CAT_CLASSES x its adversarial values (no rng).  Inputs: the value, its wire form, the JSON text of it."""
+    sup = coreprop.suppressed()
+    groups, records = [], []
+    for flavour, kind in G.ALL_KINDS:
+        env = G.catalogue_env(flavour, kind)
+        g = Group13(env, list(G.CAT_ROOTS), sup)
+        g.bad_defaults = G.defaults_conform(g.env, g.mod)
+        for ri, specs in G.CAT_VALUES.items():
+            for vi, spec in enumerate(specs):
+                v = G.realise(spec, g.env, g.mod, flip=(vi % 2 == 1))
+                rec = Rec(g, ri, v)
+                if model:
+                    w = g.add("m", ri, v)
+                else:
+                    from typelib import marshals
+                    impl.clear_caches()
+                    try:
+                        w = ("ok", marshals.marshal(v, t=g.pytys[ri]))
+                    except BaseException:        # noqa: BLE001
+                        w = ("raise",)
+                rec.inputs.append(("valid", v))
+                if w[0] == "ok":
+                    rec.inputs.append(("wire", w[1]))
+                    if coregen.jsonable(w[1]):
+                        rec.inputs.append(("json", json.dumps(w[1])))
+                if model:
+                    for tag, x in rec.inputs[:2]:        # (the JSON text goes to the oracle only: quick-tier budget)
+                        obs = g.add("u", ri, x)
+                        if obs[0] == "ok" and tag != "valid":
+                            g.add("u", ri, obs[1])
+                            rec.results.append(obs[1])
+                records.append(rec)
+        groups.append(g)
+    return groups, records
+
+
+def derivation_dist(groups):
+    d = {}
+    for g in groups:
+        for n, spec in (g.env.get("derive") or {}).items():
+            key = f"{g.env['defs'][n][1]}:{spec['kind']}"
+            d[key] = d.get(key, 0) + 1
+    return d
 
 
 # ----------------------------------------------------------------------------------
@@ -278,7 +373,15 @@ def evaluate(run, groups, records, tag, per_file=5):
         "groups": len(groups), "marshal_cases": sum(1 for g in groups for c in g.cases if c[0] == "m"),
         "unmarshal_cases": sum(1 for g in groups for c in g.cases if c[0] == "u"),
         "observed_raise": raised, "observed_ok": ncases - raised,
-        "roots": _root_dist(groups)})
+        "roots": _root_dist(groups),
+        "strata_groups": {"direct classes (round 1)": sum(1 for g in groups if not g.env.get("derive")),
+                          "derived classes, random": sum(1 for g in groups if g.env.get("derive") and not g.env.get("catalogue")),
+                          "derived classes, catalogue": sum(1 for g in groups if g.env.get("catalogue"))},
+        "catalogue_inputs": "value and wire form: model and oracle; JSON text of the wire form: oracle only",
+        "strata_cases": {"direct": sum(len(g.cases) for g in groups if not g.env.get("derive")),
+                         "derived": sum(len(g.cases) for g in groups if g.env.get("derive"))},
+        "class_derivations (flavour:kind -> classes; all expressible in the core model: same classdef)":
+            derivation_dist(groups)})
     nv = sum(len(meta[id(g)][0]) for g in groups)
     run.record_corr("definition-tie:valid", nv, badv, nv, {
         "py_valid_true": sum(1 for g in groups for d in meta[id(g)][0] if d["py_valid"]),
@@ -407,9 +510,20 @@ def prove(run: lib.Run):
 def correspond(run: lib.Run):
     n_groups = run.budget(40, 700)
     groups, records = generate(run, n_groups, seed_offset=13)
+    # round 3: the class-derivation stratum (random environments in which every class is derived, + the catalogue)
+    dg, dr = generate(run, run.budget(10, 80), seed_offset=1333, derive=True)
+    cg, cr = generate_catalogue(run)
+    run.log(f"generated: {len(groups)} direct + {len(dg)} derived + {len(cg)} catalogue environments, "
+            f"{len(records)} + {len(dr)} + {len(cr)} valid values")
+    groups, records = groups + dg + cg, records + dr + cr
     _state["groups"], _state["records"] = groups, records
     evaluate(run, groups, records, "c13")
+    run.log("model evaluated")
+    # PassLaws / IdemLaws are theorems of the scalar model (Props/LeafBridge.v: C13_passthrough_from_scalar_model ...);
+    # every scalar leaf call recorded on this run is re-evaluated on that scalar model
+    lib.run_tie(run, leaftie, groups=groups[:n_groups], tag="c13", props=False, streams=False)
     _state["law_fails"] = sample_laws(run, groups, records)
+    run.log("laws sampled")
 
 
 # ----------------------------------------------------------------------------------
@@ -495,6 +609,14 @@ def search(run: lib.Run, broken):
     # oracle-only volume (no Coq): more when something is broken
     n_extra = run.budget(80, 2000) * (3 if broken else 1)
     groups, records = generate(run, n_extra, seed_offset=1313, model=False, values_per_root=4)
+    for rec in records:
+        check_record(rec, stats, fails)
+    coreprop.close(groups)
+    n_derived = run.budget(30, 300) * (3 if broken else 1)
+    groups, records = generate(run, n_derived, seed_offset=131313, model=False, values_per_root=4, derive=True)
+    stats["oracle_only_derived_groups"] = n_derived
+    for k, v in derivation_dist(groups).items():
+        stats["derived " + k] += v
     for rec in records:
         check_record(rec, stats, fails)
     coreprop.close(groups)
